@@ -21,7 +21,9 @@
    in-order block horizon (DB.Compact passes the MaxTime of the block it just made durable);
    a merge either has only out-of-order parents or does not raise the in-order horizon
    (violated by the code as it is: C03_refuted_mixed_merge, finding
-   mixed-merge-advances-minvalidtime). *)
+   mixed-merge-advances-minvalidtime); deleting the parents of a compaction with an empty
+   result does not lower the in-order horizon (otherwise the WAL replays deleted samples:
+   C01 finding restart-replays-compacted-samples). *)
 From Coq Require Import List ZArith Bool.
 From Verif Require Import lib.Int64 model.Durable proof.DurableProofs.
 Import ListNotations.
